@@ -231,8 +231,14 @@ def u_exec_method(ip: Interp, th: ControlTheory):
     st.loc["$pidx"] = SeqV(z3.IntVal(0), [fresh("pidx", z3.ArraySort(I, I))], sym.IntL())
     st.loc["$j"] = IntV(-1)
 
+    from pyvc.front import current_name
+
+    vp_name, vp_exact = current_name(ip.repo.get(SES + "_exec_method_and_respond"), "var_pos")
+
     def empty_list(s, fr, hint):
-        if hint == "var_pos":
+        if hint == vp_name:
+            if not vp_exact:
+                s.aux["nonfragment"] = f"heuristic alias var_pos->{vp_name}"
             return [(s, RefV(EMPTY_LIST))]
         return [(s, SeqV(0, [fresh("lst", z3.ArraySort(I, Ref))], RefL(), mutable=True))]
 
@@ -620,7 +626,10 @@ def u_add_class_commands(ip: Interp, th: ControlTheory):
     ip.loopspecs[(PAR + "add_class_commands", 1)] = LoopSpec(inv_add_class_commands(state), P, name="each-member")
     th.hooks["getmembers"] = lambda s, fr, pos, kws, node: [(s, IterV(Iter(members.n, members.at, [members.n >= 0], "getmembers")))] if (isinstance(pos[0], RefV)) else None
     th.hooks["CommandParserSpecialKwargs"] = lambda s, fr, pos, kws, node: [(s, KwV(dict(kws)))]
-    th.empty_dict = lambda s, fr, hint: [(s, DictV.empty(S, RefL()))] if hint == "parsers" else [(s, KwV({}))]
+    from pyvc.front import current_name
+
+    parsers_name, _exact = current_name(ip.repo.get(PAR + "add_class_commands"), "parsers")
+    th.empty_dict = lambda s, fr, hint: [(s, DictV.empty(S, RefL()))] if hint == parsers_name else [(s, KwV({}))]
     cur = {}
 
     def on_iter(s, fr, lname, i):
